@@ -9,8 +9,8 @@
                          annotation rewrite) itself leaves a device over-committed. *)
 From Coq Require Import List ZArith Bool Arith.
 From Verif Require Import C07.Model C07.Spec C07.Proofs_Res C07.Proofs_Ledger C07.Proofs_View
-  C07.Proofs_Alloc C07.Proofs_Allocate C07.Proofs_State C07.Proofs_Inv C07.Proofs_Main
-  C07.Proofs_Export.
+  C07.Proofs_Alloc C07.Proofs_Allocate C07.Proofs_State C07.Proofs_Inv C07.Proofs_Preempt
+  C07.Proofs_Main C07.Proofs_Export.
 Import ListNotations.
 Open Scope Z_scope.
 
@@ -87,6 +87,34 @@ Theorem c07_alloc_short_meaning : forall ls infos t rq,
     (eligible_count (ledger_of ls t) (minors_of infos t) per < desired_count count)%nat.
 Proof. exact alloc_short_t_spec. Qed.
 Print Assumptions c07_alloc_short_meaning.
+
+(* preemption dry-run (Filter after RemovePod of the victims): the free map it allocates from is
+   total - (used - the victims' holdings), both differences clamped at zero ... *)
+Theorem c07_preempt_free : forall ops t victims m k,
+  forallb op_wf ops = true ->
+  let l := ledger_of (ledgers (exec ops)) t in
+  dval (free (preempt_ledger l victims)) m k =
+  Z.max 0 (dval (total l) m k
+           - Z.max 0 (dval (used l) m k - sumZ (map (victim_val l m k) victims))).
+Proof. exact preempt_free_all. Qed.
+Print Assumptions c07_preempt_free.
+(* ... it succeeds only if enough devices can take the request on that free map, and is refused
+   only if fewer than desired eligible devices exist on it *)
+Theorem c07_preempt_sound : forall ops rq t per count sh victims al,
+  forallb op_wf ops = true -> treq_of rq t = TReq per count sh ->
+  alloc_type_on (ledgers (exec ops)) (infos (exec ops)) t per count sh victims = Some al ->
+  (desired_count count <=
+   maybe_count (preempt_ledger (ledger_of (ledgers (exec ops)) t) victims)
+               (minors_of (infos (exec ops)) t) per)%nat.
+Proof. exact preempt_sound_all. Qed.
+Print Assumptions c07_preempt_sound.
+Theorem c07_preempt_complete : forall ops rq t per count sh victims,
+  forallb op_wf ops = true -> treq_of rq t = TReq per count sh ->
+  alloc_type_on (ledgers (exec ops)) (infos (exec ops)) t per count sh victims = None ->
+  (eligible_count (preempt_ledger (ledger_of (ledgers (exec ops)) t) victims)
+                  (minors_of (infos (exec ops)) t) per < desired_count count)%nat.
+Proof. exact preempt_complete_all. Qed.
+Print Assumptions c07_preempt_complete.
 
 (* duplicate add events, deletes of unknown pods and refused scheduling attempts change no ledger *)
 Theorem c07_dup_add_noop : forall ops o t,
